@@ -101,9 +101,16 @@ func init() {
 		"(time.Time).Weekday": func(a *Act, st *State, c *ssa.Function, x []Val, p tokenPos) Val {
 			return t1(app("mod", app("+", x[0].T, "1"), "7"), resType(c, 0))
 		},
-		"(time.Time).Year":   uninterp("time_year"),
-		"(time.Time).Month":  uninterp("time_month"),
-		"(time.Time).Day":    uninterp("time_day"),
+		"(time.Time).Year":  uninterp("time_year"),
+		"(time.Time).Month": uninterp("time_month"),
+		"(time.Time).Day":   uninterp("time_day"),
+		// durations are nanoseconds (mathematical integers); times are whole days
+		"(time.Time).Sub": func(a *Act, st *State, c *ssa.Function, x []Val, p tokenPos) Val {
+			return t1(app("*", app("-", x[0].T, x[1].T), "86400000000000"), resType(c, 0))
+		},
+		"(time.Duration).Hours": func(a *Act, st *State, c *ssa.Function, x []Val, p tokenPos) Val {
+			return t1(app("/", app("to_real", x[0].T), "3600000000000.0"), resType(c, 0))
+		},
 		"(time.Time).Local":  func(a *Act, st *State, c *ssa.Function, x []Val, p tokenPos) Val { return t1(x[0].T, resType(c, 0)) },
 		"(time.Time).Format": pureFresh,
 		"(time.Time).String": pureFresh,
